@@ -13,19 +13,21 @@ Inductive akind := Kloaded | Ktransient | Kparam | Knone.
 
 Inductive code :=
 | Raise (label : string)
-| Mut | MutParam | Commit | SetPh | Ret
+| Mut | MutParam | Commit | Rollback | SetPh | Ret
 | Call (f : string) (k : akind)
 | CallOnce (f : string) (k : akind)   (* every top-level loop of f runs exactly once in this call *)
 | Seq (l : list code)
 | If (a b : code)
 | Loop (b : code).
 
-(* abstract state of a path: may a loaded object / the session hold an uncommitted change *)
-Definition st := bool.
+(* abstract state of a path: may a loaded object / the session hold an uncommitted change (dirty);
+   may a commit already have published a change in this handler invocation (effected) *)
+Record st := { dirty : bool; effected : bool }.
+Definition clean_st : st := {| dirty := false; effected := false |}.
 Definition join (a b : option st) : option st :=
   match a, b with
   | None, x | x, None => x
-  | Some x, Some y => Some (x || y)
+  | Some x, Some y => Some {| dirty := dirty x || dirty y; effected := effected x || effected y |}
   end.
 
 Record res := { fall : option st;      (* state when control falls out of the code; None = does not *)
@@ -46,12 +48,14 @@ Fixpoint analyse (fuel : nat) (env : list (string * code)) (pk : akind) (once : 
     | None => {| fall := None; exits := None; viols := [] |}
     | Some d =>
       match c with
-      | Raise l => {| fall := None; exits := None; viols := if d then [l] else [] |}
-      | Mut => {| fall := Some true; exits := None; viols := [] |}
+      | Raise l => {| fall := None; exits := None;
+                      viols := (if dirty d then [l] else []) ++ (if effected d then ["after a commit that took effect - " ++ l] else []) |}
+      | Mut => {| fall := Some {| dirty := true; effected := effected d |}; exits := None; viols := [] |}
       | MutParam =>
-          {| fall := Some (match pk with Ktransient => d | _ => true end); exits := None; viols := [] |}
-      | Commit => {| fall := Some false; exits := None; viols := [] |}
-      | SetPh => {| fall := s; exits := None; viols := if d then ["placeholder set before commit"] else [] |}
+          {| fall := Some {| dirty := match pk with Ktransient => dirty d | _ => true end; effected := effected d |}; exits := None; viols := [] |}
+      | Commit => {| fall := Some {| dirty := false; effected := effected d || dirty d |}; exits := None; viols := [] |}
+      | Rollback => {| fall := Some {| dirty := false; effected := effected d |}; exits := None; viols := [] |}
+      | SetPh => {| fall := s; exits := None; viols := if dirty d then ["placeholder set before commit"] else [] |}
       | Ret => {| fall := None; exits := s; viols := [] |}
       | Call f k =>
           match lookup_code f env with
@@ -98,7 +102,7 @@ Fixpoint dedup (l : list string) : list string :=
 Definition late_raises_of (env : list (string * code)) (h : string) : list string :=
   match lookup_code h env with
   | None => ["handler not found: " ++ h]
-  | Some c => dedup (viols (analyse 400 env Knone false c (Some false)))
+  | Some c => dedup (viols (analyse 400 env Knone false c (Some clean_st)))
   end.
 
 Definition late_raises (env : list (string * code)) (handlers : list string) : list (string * list string) :=
@@ -109,6 +113,35 @@ Definition late_raises (env : list (string * code)) (handlers : list string) : l
 Definition ends_dirty_of (env : list (string * code)) (h : string) : bool :=
   match lookup_code h env with
   | None => true
-  | Some c => let r := analyse 400 env Knone false c (Some false) in
-              match join (fall r) (exits r) with Some true => true | _ => false end
+  | Some c => let r := analyse 400 env Knone false c (Some clean_st) in
+              match join (fall r) (exits r) with Some x => dirty x | None => false end
+  end.
+
+(* the events of a piece of code in textual order *)
+Fixpoint flatten (fuel : nat) (c : code) : list code :=
+  match fuel with
+  | O => []
+  | S f =>
+    match c with
+    | Seq l => flat_map (flatten f) l
+    | If a b => (flatten f a ++ flatten f b)%list
+    | Loop b => flatten f b
+    | x => [x]
+    end
+  end.
+
+Definition is_call_of (name : string) (c : code) : bool :=
+  match c with Call g _ | CallOnce g _ => String.eqb g name | _ => false end.
+Definition is_rollback (c : code) : bool := match c with Rollback => true | _ => false end.
+
+(* in method m, a session rollback textually follows the call of `callee` (the except branches lie in between) *)
+Fixpoint rollback_follows (callee : string) (l : list code) : bool :=
+  match l with
+  | [] => false
+  | x :: r => if is_call_of callee x then existsb is_rollback r else rollback_follows callee r
+  end.
+Definition rolls_back_after (env : list (string * code)) (m callee : string) : bool :=
+  match lookup_code m env with
+  | None => false
+  | Some c => rollback_follows callee (flatten 50 c)
   end.
